@@ -138,20 +138,38 @@ def ClientCert.identity {Ident : Type} : ClientCert Ident → Option Ident
   | .peer id => some id
   | _ => Option.none
 
+/-- The rustls handshake (trusted library, behaviour per its documentation): what certificate
+identity the server ends up with, or `none` if the handshake is aborted.
+* verifier not installed: no certificate is requested, whatever the client holds is not sent;
+* client without certificate: accepted iff client authentication is optional;
+* certificate outside the trust anchors: handshake aborted (with anchors ≠ the peers' certificates
+  the model makes no claim and treats it the same way). -/
+def handshake {Ident : Type} (setup : TlsSetup) (cert : ClientCert Ident) : Option (Option Ident) :=
+  if !setup.verifierInstalled then some Option.none
+  else match cert with
+    | .none => if setup.clientAuthOptional then some Option.none else Option.none
+    | .stranger => Option.none
+    | .peer id => some (some id)
+
 /-- One request over a fresh connection to a server of flavor `f` with route table `routes`,
-started through the arm `arm` of `start_on`. rustls (trusted): the trust anchors are exactly the
-peers' certificates, client authentication is optional (`allow_unauthenticated`), a certificate
-outside the trust anchors aborts the handshake. -/
+started through the arm `arm` of `start_on` with the TLS setup `setup`. -/
+def serveWith {Ident : Type} (setup : TlsSetup) (f : Flavor) (routes : List Entry) (arm : StartArm)
+    (c : Client Ident) (path : List String) (m : Method) : LiveResp :=
+  if c.tls != arm.tlsAcceptor then .connErr
+  else
+    match (if arm.tlsAcceptor then handshake setup c.cert else some Option.none) with
+    | Option.none => .connErr
+    | some certId =>
+      match deriveIdentity arm { cert := certId, header := c.header } with
+      | .rejected => .rejected
+      | .ext id =>
+        .resp (respond routes { path := path, method := m,
+                                helperId := (f == .helper) && id.isSome,
+                                shardId := (f == .shard) && id.isSome })
+
+/-- … with the regenerated `rustls_config` setup. -/
 def serve {Ident : Type} (f : Flavor) (routes : List Entry) (arm : StartArm) (c : Client Ident)
     (path : List String) (m : Method) : LiveResp :=
-  if c.tls != arm.tlsAcceptor then .connErr
-  else if arm.tlsAcceptor && (match c.cert with | .stranger => true | _ => false) then .connErr
-  else
-    match deriveIdentity arm { cert := c.cert.identity, header := c.header } with
-    | .rejected => .rejected
-    | .ext id =>
-      .resp (respond routes { path := path, method := m,
-                              helperId := (f == .helper) && id.isSome,
-                              shardId := (f == .shard) && id.isSome })
+  serveWith IpaVerif.Generated.Routes.tlsSetup f routes arm c path m
 
 end IpaVerif.Auth
